@@ -10,19 +10,25 @@ RULE = ("VALIDATION RUNS (numerical, not obligations): (wertheim) one-component 
         "(g at the first grid point outside the core), S(k) at the resolved wavenumbers of the coarsest grid, extrapolated S(0), c(r) at the fixed r of the coarsest grid compared with the Wertheim-Thiele "
         "functions EVALUATED BY THE LEAN DRIVER (wtContact, wtS0, wtC; S(k) by high-order quadrature of wtC): errors must be <= K(eta)*dr on every member (K = 2.5 x the largest ratio seen on the unchanged tree); (dilute) every shipped "
         "potential x {PY, HNC, MSA+core} x kT in {0.7, 1, 2.5} at rho = 1e-6: g vs exp(-u/kT) / 1-u/kT (0 inside a core) and second_virial vs -2 pi Int (e^{-u/kT}-1) r^2 dr on two grids; "
-        "(scan) density scans re-using one System, objects created first and solved later; (cost) the rank-1 OZ reduction h(1 - rho omega c) = omega c omega on arbitrary x. Non-trivial = all; distinct = distinct case")
+        "state points also reached by continuation from another temperature (the evaluated object's own system re-used) and after a diameter re-assignment; (scan) density scans re-using one System, objects created first and solved later; (cost) the rank-1 OZ reduction h(1 - rho omega c) = omega c omega on arbitrary x. Non-trivial = all; distinct = distinct case")
 EXTRA_TRUSTED = C01.EXTRA_TRUSTED + ["Wertheim-Thiele closed forms (textbook); S(k) of the reference by Gauss-Legendre quadrature of the cubic c(r)"]
 ASSUMPTIONS = ["fluid-range packing fractions (eta <= 0.45) on which krylov converges", "the O(dr) constant is taken from the coarsest member of the refinement family"]
 BUDGET = {'quick': 1200, 'thorough': 5400}
 T1 = G.TYPES[0]
 
-def solve1(eta, dr, L, hc, kT=1.0, pot=None, clo='py', rho=None, method='krylov', d=1.0, kT_assign=False):
+def solve1(eta, dr, L, hc, kT=1.0, pot=None, clo='py', rho=None, method='krylov', d=1.0, kT_assign=False, warm=None, d_pre=None):
+    """warm: the state point is reached by CONTINUATION - a PRISM object is first created and evaluated at another temperature
+    `warm`, then its own system (p.sys, whose closures and potentials have been used) is set to kT and a new object is created from it;
+    d_pre: the diameter is first set to another value (a size scan on one System) and then to d"""
+    kT_final = kT
+    if warm is not None: kT = warm
     if kT_assign:
         s = pyPRISM.System([T1]); s.kT = kT               # temperature set through the documented attribute (a sweep re-using one System)
     else:
         s = pyPRISM.System([T1], kT=kT)
     s.domain = pyPRISM.Domain(length=L, dr=dr)
     s.density[G.fresh(T1)] = rho if rho is not None else eta * 6 / math.pi / d ** 3
+    if d_pre is not None: s.diameter[T1] = d_pre
     s.diameter[G.fresh(T1)] = d
     K1 = G.fresh(T1)
     s.potential[K1, K1] = pot if pot is not None else pyPRISM.potential.HardSphere()
@@ -30,6 +36,11 @@ def solve1(eta, dr, L, hc, kT=1.0, pot=None, clo='py', rho=None, method='krylov'
     s.closure[T1, T1] = G.mk_clo([clo, hc])
     s.omega[T1, T1] = pyPRISM.omega.SingleSite()
     p = s.createPRISM()
+    if warm is not None:
+        with np.errstate(all='ignore'):
+            p.cost(np.zeros(L))
+        s2 = p.sys; s2.kT = kT_final
+        p = s2.createPRISM()
     res = C01.solve_quiet(p, None, method)
     if isinstance(res, Exception) or not res.success: return None
     return p
@@ -93,7 +104,7 @@ def suite_wertheim(ctx, case):
     e_contact = []; e_S = []; e_S0 = []; e_c = []; drs = []
     for N in case['Ns']:
         dr = rmax / N
-        p = solve1(eta, dr * dd, N, hc, d=dd)
+        p = solve1(eta, dr * dd, N, hc, d=dd, d_pre=case.get('d_pre'))
         ctx.validation_runs += 1
         if p is None:
             ctx.dist['wertheim:not-converged'] += 1; return
@@ -152,7 +163,7 @@ def suite_dilute(ctx, case):
                  '%s/%s kT=%g rho=%g: the self-consistency function at gamma = 0 is %.3g, not O(rho): the dilute limit g = exp(-u/kT) is not approached' %
                  (case['pot'][0], clo, kT, case.get('rho', 1e-6), float(np.max(np.abs(y0)))), key='C02:dilute-g')
         U = mk_pot(case['pot'])
-        p = solve1(None, dr, N, hc, kT=kT, pot=U, clo=clo, rho=case.get('rho', 1e-6), kT_assign=case.get('kT_assign', False))
+        p = solve1(None, dr, N, hc, kT=kT, pot=U, clo=clo, rho=case.get('rho', 1e-6), kT_assign=case.get('kT_assign', False), warm=case.get('warm'))
         ctx.validation_runs += 1
         if p is None:
             ctx.dist['dilute:not-converged'] += 1; return
@@ -232,6 +243,7 @@ def generate(ctx):
         rmax = rng.choice([12.8, 16.0, 15.4, 13.2])
         N0 = rng.choice([128, 160]) if rmax == 16.0 else 128 if rmax == 12.8 else 154 if rmax == 15.4 else 132      # 154 = 2*7*11, 132 = 4*3*11: not 5-smooth
         case = {'eta': eta, 'rmax': rmax, 'N0': N0, 'Ns': [N0, 2 * N0] + ([] if ctx.quick() else [4 * N0]), 'hc': rng.random() < 0.5, 'd': rng.choice([1.0, 0.8, 1.25, 2.0]), 'sf_first': rng.random() < 0.5}
+        if rng.random() < 0.5 or eta == etas[1]: case['d_pre'] = rng.choice([0.5, 1.5, 3.0]) * case['d']          # the diameter of a size scan: set to another value first
         ctx.case('wertheim', case, True, tags=['eta:%g' % eta, 'hc:%s' % case['hc']]); suite_wertheim(ctx, case)
     for _ in range(ctx.n(3, 20)):
         case = {'etas': sorted(rng.sample([0.05, 0.1, 0.15, 0.2, 0.25, 0.3, 0.35], 3)), 'N': 128, 'dr': rng.choice([0.1, 0.125]), 'reverse': rng.random() < 0.5}
@@ -245,7 +257,14 @@ def generate(ctx):
         if clo == 'msa' and not hard: continue
         kT = rng.choice([0.7, 1.0, 2.5])
         case = {'pot': pot, 'clo': clo, 'hc': hc, 'kT': kT, 'grids': [[128, 0.1], [256, 0.05]], 'kT_assign': rng.random() < 0.5, 'sf_first': rng.random() < 0.4, 'rho': rng.choice([1e-6, 1e-9, 1e-12, 1e-18, 1e-18, 1e-20])}
+        if rng.random() < 0.5: case['warm'] = rng.choice([2.0 * kT, 0.6 * kT])          # reached by continuation from another temperature (p.sys re-used)
         ctx.case('dilute', case, True, tags=['pot:' + pot[0], 'clo:' + clo, 'kT:%g' % kT]); suite_dilute(ctx, case)
+    # directed: every closure with a soft-tailed potential, the state point reached by continuation from another temperature
+    for clo in ('py', 'hnc', 'msa'):
+        for pot in (['exp', None, 0.5, 0.5, 1e6], ['hclj', None, 0.6, 1e6]) + (() if clo == 'msa' else (['lj', None, 0.7],)):
+            kT = rng.choice([0.7, 1.0, 2.5])
+            case = {'pot': pot, 'clo': clo, 'hc': True if clo == 'msa' else rng.random() < 0.5, 'kT': kT, 'grids': [[128, 0.1], [256, 0.05]], 'kT_assign': rng.random() < 0.5, 'rho': 1e-6, 'warm': rng.choice([2.0 * kT, 0.6 * kT])}
+            ctx.case('dilute', case, True, tags=['pot:' + pot[0], 'clo:' + clo, 'kT:%g' % kT, 'continuation']); suite_dilute(ctx, case)
     for _ in range(ctx.n(40, 300)):
         sd = G.gen_system(rng, maxn=1, maxL=32)
         case = {'sys': sd, 'x': G.gen_x(rng, sd, 'moderate')}
